@@ -27,6 +27,7 @@ fn small_dev() -> KDev {
 }
 
 #[kani::proof]
+#[kani::unwind(8)]
 pub fn scpi_stb_contract() {
     let d = small_dev();
     kani::cover!(dev_stb(&d, false) == 0xEC);
@@ -74,6 +75,7 @@ impl IEEE4882 for Plain {
     }
 }
 #[kani::proof]
+#[kani::unwind(8)]
 pub fn ieee4882_default_stb() {
     let p = Plain { esr: kani::any(), ese: kani::any(), sre: kani::any() };
     assert!(p.stb() == spec_stb(false, false, false, false, p.esr, p.ese, p.sre), "C16/IEEE4882::stb/default-composes-ESB-then-MSS");
